@@ -93,6 +93,9 @@ func c07Run(c *mon.Ctx, idx int) {
 	opt.TagName = ""
 	if idx%4 == 0 {
 		node = c07Exact
+	} else if idx%4 == 1 {
+		node = collisionDatum
+		c.Count("collision_datum_cases")
 	} else {
 		node, _ = drawDatum(c, idx, r)
 	}
